@@ -1,100 +1,12 @@
-(* C02 simulation, part 4: status writes, onProcessEnd, stop requests, new instances, command exits. *)
+(* C02 simulation: status writes and entry of onProcessEnd (heavy). *)
 From Coq Require Import List ZArith NArith Bool Lia.
 From RecordUpdate Require Import RecordSet.
 From PC.Base Require Import Assoc.
-From PC.Sup Require Import Model Monitors Tactics Sim ObsFacts Effects RelCore LemC02 RelC02t RelC02b RelC02c.
+From PC.Sup Require Import Model Monitors Tactics Sim ObsFacts Effects RelCore LemC02 RelC02defs.
 Import ListNotations RecordSetNotations.
-
-Lemma P2_frame2 s o x xo s' o' x' xo' :
-  P2 s o x xo -> ikeep x x' -> okeep xo xo' -> restarts (vis_of s (nm x)) <= restarts (vis_of s' (nm x)) -> wkeep o o' ->
-  (W4 o' = false -> launched_pc (pc x) = true -> st (vis_of s' (nm x)) <> SPending) -> P2 s' o' x' xo'.
-Proof.
-  intros [] (I1 & I2 & I3 & I4 & I5 & I6 & I7 & I8) (O1 & O2 & O3 & O4 & O5 & O6) V1 (Wa & Wb) Hst.
-  constructor; unfold Pok, GaveUp in *; rewrite ?I1, ?I2, ?I3, ?I4, ?I5, ?I6, ?I7, ?I8, ?O1, ?O2, ?O3, ?O4, ?O5, ?O6; auto.
-  - intros c Hc. destruct (p_gaveup c Hc) as (A & B). split; [exact A|].
-    destruct B as [B|[B|[B1 B2]]]; auto. right; right. split; [exact B1|lia].
-  - destruct p_restarts as [A B]. split; [lia|]. intros Hr. specialize (B Hr). lia.
-Qed.
-
-Lemma st_write_status n s0 s m :
-  st (vis_of (write_status n s0 s) m) =
-  if N.eqb n m then match get m (viss s) with Some _ => s0 | None => SPending end else st (vis_of s m).
-Proof.
-  unfold write_status. rewrite vis_of_upd_vis. destruct (N.eqb n m); [|reflexivity]. unfold vis_of.
-  destruct (get m (viss s)); [|reflexivity]. destruct s0; reflexivity.
-Qed.
-Lemma restarts_write_status n s0 s m : restarts (vis_of (write_status n s0 s) m) = restarts (vis_of s m).
-Proof.
-  unfold write_status. rewrite vis_of_upd_vis. destruct (N.eqb n m); [|reflexivity]. unfold vis_of.
-  destruct (get m (viss s)); [|reflexivity]. destruct s0; reflexivity.
-Qed.
-
-Lemma keep_shape o o' i : oback okeep o o' -> forall j xo', get j (oi o') = Some xo' ->
-  exists xo, get j (oi o) = Some xo /\ okeep (if N.eqb i j then xo else xo) xo'.
-Proof. intros H j xo' Hj. destruct (H j xo' Hj) as (xo & E & K). exists xo. split; [exact E|]. now destruct (N.eqb i j). Qed.
 
 Section D.
 Context (cs : amap pconf).
-
-Lemma vis_exists s o i x : Rc cs s o -> get i (insts s) = Some x -> exists v, get (nm x) (viss s) = Some v.
-Proof.
-  intros HRc Ex. destruct (rc_inst _ _ _ HRc _ _ Ex) as (xo & _ & _ & Hcf & _).
-  destruct (rc_name _ _ _ HRc _ _ Hcf) as (v & r & Ev & _). eauto.
-Qed.
-
-(* outside the dup/zombie windows a name has at most one instance that has not left *)
-Lemma other_launched_absurd s o i j x y : Rc cs s o -> Rd o -> P2all s o -> W4 o = false -> i <> j ->
-  get i (insts s) = Some x -> get j (insts s) = Some y -> nm x = nm y ->
-  gone_pc (pc x) = false -> launched_pc (pc y) = true -> False.
-Proof.
-  intros HRc HRd HP HW Hij Ex Ey Hn Hgx Hly.
-  destruct (rc_inst _ _ _ HRc _ _ Ex) as (xo & Exo & Nx & _). destruct (rc_inst _ _ _ HRc _ _ Ey) as (yo & Eyo & Ny & _).
-  assert (Hd : w_dup o = false /\ w_zombie o = false).
-  { unfold W4 in HW. destruct (w_commit o), (w_sdlag o), (w_dup o), (w_zombie o); try discriminate; auto. }
-  destruct Hd as [Hd Hz].
-  destruct (HRd Hd Hz i j xo yo Hij Exo Eyo) as [[_ G]|[_ G]]; [congruence| |].
-  - apply (p_gone _ _ _ _ (HP _ _ _ Ex Exo)) in G. congruence.
-  - apply (p_gone _ _ _ _ (HP _ _ _ Ey Eyo)) in G. destruct (pc y); discriminate.
-Qed.
-
-(* ---- status writes -------------------------------------------------------------------------------------- *)
-Lemma P2all_status_others s o s' o' i x n s0 :
-  Rc cs s o -> Rd o -> P2all s o -> wkeep o o' -> oback okeep o o' ->
-  get i (insts s) = Some x -> n = nm x -> (gone_pc (pc x) = false \/ s0 <> SPending) ->
-  (forall m, st (vis_of s' m) = if N.eqb n m then match get m (viss s) with Some _ => s0 | None => SPending end else st (vis_of s m)) ->
-  (forall m, restarts (vis_of s' m) = restarts (vis_of s m)) ->
-  forall j y y' yo', j <> i -> get j (insts s) = Some y -> ikeep y y' -> get j (oi o') = Some yo' -> P2 s' o' y' yo'.
-Proof.
-  intros HRc HRd HP Hwk Hk Ex -> Hor Hst Hres j y y' yo' Hji Ey Ik Eyo'.
-  destruct (Hk j yo' Eyo') as (yo & Eyo & Ok).
-  eapply P2_frame2; [apply (HP _ _ _ Ey Eyo)|exact Ik|exact Ok|rewrite Hres; lia|exact Hwk|].
-  intros Hw Hl. rewrite Hst. destruct (N.eqb_spec (nm x) (nm y)) as [En|En].
-  - destruct (vis_exists _ _ _ _ HRc Ey) as (v & ->). destruct Hor as [Hg|Hs0]; [|exact Hs0].
-    exfalso. eapply (other_launched_absurd s o i j x y); eauto. apply Hwk, Hw.
-  - apply (p_status _ _ _ _ (HP _ _ _ Ey Eyo)); [apply Hwk, Hw|exact Hl].
-Qed.
-
-Ltac inst_i_tac HP Ex Hk i :=
-  (* goal: P2 s' o' x' xo' for the acting instance i, with x' an update of x *)
-  match goal with Hxo : get i (oi ?o') = Some ?xo' |- _ =>
-    let xo := fresh "xo" in let Exo := fresh "Exo" in let Ok := fresh "Ok" in let HPx := fresh "HPx" in
-    destruct (Hk i xo' Hxo) as (xo & Exo & Ok); pose proof (HP _ _ _ Ex Exo) as HPx;
-    destruct HPx as [Pcommit Pstop Pexited Palive Pcode Pdecided Prelaunch Pgaveup Prestarts Ppre Pfstopped Prunctx Pendst Pgone Pnostop Pstatus];
-    destruct Ok as (Oa & Ob & Oc & Od & Oe & Of); cbn in Oa, Ob, Oc, Od, Oe, Of; constructor;
-    rewrite ?Oa, ?Ob, ?Oc, ?Od, ?Oe, ?Of
-  end.
-
-Ltac wk_intro Hwk :=
-  match goal with
-  | |- W2 _ = false -> _ => let Hw := fresh "Hw" in intros Hw; pose proof (proj1 Hwk Hw)
-  | |- W4 _ = false -> _ => let Hw := fresh "Hw" in intros Hw; pose proof (proj2 Hwk Hw); pose proof (proj1 Hwk (W4_W2 _ Hw))
-  | _ => idtac
-  end.
-
-Ltac state_fin Hwk Ev :=
-  unfold set_pc; autorewrite with sup; rewrite ?st_write_status, ?restarts_write_status; cbn; rewrite ?N.eqb_refl, ?Ev;
-  try match goal with E : pc _ = _ |- _ => rewrite E in * end;
-  wk_intro Hwk; try (p2_clause; fail).
 
 Lemma P2all_state s o th i s0 s' : Rc cs s o -> Rd o -> P2all s o -> step_state s th i s0 = Some s' ->
   P2all s' (obs_step cs o (th, EState i s0)).
@@ -103,7 +15,7 @@ Proof.
   pose proof (obs_step_keep cs o th (EState i s0) eq_refl) as Hk.
   set (o' := obs_step cs o (th, EState i s0)) in *. clearbody o'.
   unfold step_state in H. destruct (get i (insts s)) as [x|] eqn:Ex; [|discriminate]. cbv zeta in H.
-  destruct (vis_exists _ _ _ _ HRc Ex) as (v & Ev).
+  destruct (vis_exists cs _ _ _ _ HRc Ex) as (v & Ev).
   assert (Hgen : (if status_eqb s0 SPending
                   then check negb (opt_eqb N.eqb (get th (thinst s)) (Some i)) && negb (has i (map (fun p => (snd p, tt)) (thinst s)))
                              && (match pc x with IDeps _ => true | _ => false end);
@@ -123,14 +35,14 @@ Proof.
       + assert (y' = x) by congruence. subst y'. destruct (Hk i yo' Hyo') as (xo & Exo & Ok).
         eapply P2_frame2; [apply (HP _ _ _ Ex Exo)|apply ikeep_refl|exact Ok|unfold set_stage; rewrite vis_of_set_stage, restarts_write_status; lia|exact Hwk|].
         intros _ Hl. destruct (pc x); discriminate.
-      + eapply (P2all_status_others s o _ o' i x (nm x) SPending); eauto using ikeep_refl.
+      + eapply (P2all_status_others cs s o _ o' i x (nm x) SPending); eauto using ikeep_refl.
         * left. destruct (pc x); try discriminate; reflexivity.
         * intros m. unfold set_stage. rewrite vis_of_set_stage. apply st_write_status.
         * intros m. unfold set_stage. rewrite vis_of_set_stage. apply restarts_write_status.
     - (* Running *)
       intros j y' yo' Hy' Hyo'. unfold set_pc in Hy'. autorewrite with sup in Hy'. destruct (N.eqb_spec i j) as [<-|Hji].
       + rewrite Ex in Hy'. cbn in Hy'. injection Hy' as <-. inst_i_tac HP Ex Hk i. all: state_fin Hwk Ev.
-      + eapply (P2all_status_others s o _ o' i x (nm x) SRunning); eauto using ikeep_refl.
+      + eapply (P2all_status_others cs s o _ o' i x (nm x) SRunning); eauto using ikeep_refl.
         * right; discriminate.
         * intros m. unfold set_pc. autorewrite with sup. apply st_write_status.
         * intros m. unfold set_pc. autorewrite with sup. apply restarts_write_status.
@@ -138,7 +50,7 @@ Proof.
       intros j y' yo' Hy' Hyo'. unfold set_pc in Hy'. autorewrite with sup in Hy'. destruct (N.eqb_spec i j) as [<-|Hji].
       + rewrite Ex in Hy'. cbn in Hy'. injection Hy' as <-. inst_i_tac HP Ex Hk i. all: state_fin Hwk Ev.
         intros c0 [[=]|[[= <-]|[=]]]. apply (Pdecided c). now left.
-      + eapply (P2all_status_others s o _ o' i x (nm x) SRestarting); eauto using ikeep_refl.
+      + eapply (P2all_status_others cs s o _ o' i x (nm x) SRestarting); eauto using ikeep_refl.
         * right; discriminate.
         * intros m. unfold set_pc. autorewrite with sup. apply st_write_status.
         * intros m. unfold set_pc. autorewrite with sup. apply restarts_write_status.
@@ -148,7 +60,7 @@ Proof.
       + rewrite Ex in Hy'. cbn in Hy'. injection Hy' as <-. inst_i_tac HP Ex Hk i. all: unfold end_finish; state_fin Hwk Ev.
         intros c0 [[=]|[b0 Hb0]]. injection Hb0 as -> <-. destruct (Pgaveup c) as (A & B); [right; eauto|]. split; [exact A|].
         unfold GaveUp in *. cbn. autorewrite with sup. rewrite restarts_write_status, ?Ob. exact B.
-      + eapply (P2all_status_others s o _ o' i x (nm x) s1); eauto using ikeep_refl.
+      + eapply (P2all_status_others cs s o _ o' i x (nm x) s1); eauto using ikeep_refl.
         * left. match goal with E : pc x = _ |- _ => rewrite E end. reflexivity.
         * intros m. unfold set_pc, end_finish. autorewrite with sup. apply st_write_status.
         * intros m. unfold set_pc, end_finish. autorewrite with sup. apply restarts_write_status. }
@@ -160,43 +72,11 @@ Proof.
     break_step H. subst s'. eapply P2all_frame; [exact HP| |exact Hk|exact Hwk]. sback_close.
 Qed.
 
-(* ---- onProcessEnd ---------------------------------------------------------------------------------------- *)
-Lemma procend_shape o th i s0 : forall j xo', get j (oi (obs_step cs o (th, EProcEnd i s0))) = Some xo' ->
-  exists xo, get j (oi o) = Some xo /\
-    okeep (if N.eqb i j then xo <| o_endst := Some s0 |> <| o_commit := if opt_eqb N.eqb (get th (o_th o)) (Some i) then false else o_commit xo |> else xo) xo'.
-Proof. intros j xo'. unfold obs_step. cbn [ev_inst fst snd]. intros H. eapply obs_upd_shape in H; eauto. Qed.
-
-Ltac comb_tac2 HP i E0 Hshape Hwk :=
-  let j9 := fresh "j" in let x9 := fresh "x" in let xo9 := fresh "xo" in let Hx9 := fresh "Hx" in let Hxo9 := fresh "Hxo" in
-  let xo := fresh "xo" in let Exo := fresh "Exo" in let Ok := fresh "Ok" in let Hne := fresh "Hne" in let HPx := fresh "HPx" in
-  intros j9 x9 xo9 Hx9 Hxo9; unfold set_pc in Hx9; autorewrite with sup in Hx9; cbn [fst snd] in Hx9;
-  destruct (Hshape j9 xo9 Hxo9) as (xo & Exo & Ok);
-  destruct (N.eqb_spec i j9) as [<-|Hne];
-  [ rewrite ?E0 in Hx9; cbn in Hx9; injection Hx9 as <-; pose proof (HP _ _ _ E0 Exo) as HPx; p2_pre;
-    destruct HPx as [Pcommit Pstop Pexited Palive Pcode Pdecided Prelaunch Pgaveup Prestarts Ppre Pfstopped Prunctx Pendst Pgone Pnostop Pstatus];
-    destruct Ok as (Oa & Ob & Oc & Od & Oe & Of); rewrite ?N.eqb_refl in *; cbn in Oa, Ob, Oc, Od, Oe, Of; constructor;
-    rewrite ?Oa, ?Ob, ?Oc, ?Od, ?Oe, ?Of
-  | eapply P2_frame; [apply (HP j9 x9 xo Hx9 Exo)|apply ikeep_refl|exact Ok|apply vrel_vkeep; vrel_tac|exact Hwk] ].
-
-Ltac gaveup_tac :=
-  let c0 := fresh "c" in let Hc := fresh "Hc" in let b9 := fresh "b" in
-  intros c0 Hc; cbn in Hc; destruct Hc as [Hc|[b9 Hc]]; try discriminate Hc; inversion Hc; subst;
-  match goal with Pg : forall c, _ \/ _ -> o_code _ = Some c /\ GaveUp _ _ _ c |- _ =>
-    let A := fresh in let B := fresh in
-    edestruct Pg as (A & B); [solve [left; reflexivity | right; eexists; reflexivity]|];
-    split; [exact A|]; unfold GaveUp in *; cbn; unfold set_pc, end_finish; autorewrite with sup;
-    repeat match goal with Hq : o_stopreq _ = o_stopreq _ |- _ => rewrite Hq end; exact B
-  end.
-
-Ltac comb_fin Hwk :=
-  try match goal with E : pc _ = _ |- _ => rewrite E in * end;
-  rewrite ?N.eqb_refl in *; wk_intro Hwk; try (p2_clause; fail).
-
 Lemma P2all_procend_entry s o th i s0 s' : Rc cs s o -> Rt s o -> P2all s o -> step_procend s th i s0 true = Some s' ->
   P2all s' (obs_step cs o (th, EProcEnd i s0)).
 Proof.
   intros HRc HRt HP H. pose proof (wkeep_step cs o (th, EProcEnd i s0)) as Hwk.
-  pose proof (procend_shape o th i s0) as Hshape.
+  pose proof (procend_shape cs o th i s0) as Hshape.
   set (o' := obs_step cs o (th, EProcEnd i s0)) in *. clearbody o'.
   unfold step_procend in H. destruct (get i (insts s)) as [x|] eqn:Ex; [|discriminate]. cbv zeta in H.
   assert (Hown : opt_eqb N.eqb (get th (thinst s)) (Some i) = opt_eqb N.eqb (get th (o_th o)) (Some i))
@@ -210,31 +90,6 @@ Proof.
     intros c Hc. destruct (Pgaveup c Hc) as (A & B). split; [exact A|]. left. congruence.
   - assert (Hsr : o_stopreq xo0 = true) by (rewrite <- (oi_get_some _ _ _ Exo); apply Hsp; reflexivity).
     intros _. now left.
-Qed.
-
-Lemma P2all_procend_exit s o th i s0 s' : Rc cs s o -> P2all s o -> step_procend s th i s0 false = Some s' ->
-  P2all s' (obs_step cs o (th, EProcEnded i s0)).
-Proof.
-  intros HRc HP H. pose proof (wkeep_step cs o (th, EProcEnded i s0)) as Hwk.
-  pose proof (obs_step_keep cs o th (EProcEnded i s0) eq_refl) as Hk.
-  pose proof (keep_shape _ _ i Hk) as Hshape.
-  set (o' := obs_step cs o (th, EProcEnded i s0)) in *. clearbody o'.
-  unfold step_procend in H. destruct (get i (insts s)) as [x|] eqn:Ex; [|discriminate]. cbv zeta in H.
-  assert (Hgen : (check opt_eqb N.eqb (get th (thinst s)) (Some i);
-                  match pc x with
-                  | IInEnd s1 c true =>
-                      check status_eqb s0 s1;
-                      Some (set_pc i (match s1 with
-                                      | SSkipped => IProjEnd c true
-                                      | SError => IRunRet (Some 1%Z)
-                                      | _ => IRunRet None
-                                      end) s)
-                  | _ => None
-                  end) = Some s' -> P2all s' o').
-  { clear H. intros H. break_step H; subst s'.
-    all: comb_tac2 HP i Ex Hshape Hwk; comb_fin Hwk; try (gaveup_tac; fail). }
-  destruct (spc (get_thread s th)) eqn:Es; try (apply Hgen; exact H).
-  break_step H. subst s'. eapply P2all_frame; [exact HP| |exact Hk|exact Hwk]. sback_close.
 Qed.
 
 End D.
